@@ -411,7 +411,7 @@ def run(ctx) -> None:
     ctx.coverage["part_S_stepper_purity_cases"] = sum(r["n"] for r in resS)
     # part K: machine-level bookkeeping (how earlier interrupt handlers were left) must not show after a common architectural state
     from . import c07_book
-    bc = list(c07_book.cases(ctx.thorough))
+    bc = list(c07_book.cases(ctx.thorough)) + list(c07_book.width_cases())
     resK = pmap(c07_book.shard, [(impl, c) for impl in ("rust", "python") for c in chunks(bc, nproc() // 2)])
     for r in resK:
         ctx.merge_bucket(r["vb"])
